@@ -5,12 +5,15 @@ import (
 	"fmt"
 	"math/big"
 	"math/rand"
+	"os"
+	"reflect"
 	"sort"
 	"strings"
 	"time"
 
 	sdkmath "cosmossdk.io/math"
 	sdk "github.com/cosmos/cosmos-sdk/types"
+	"github.com/cosmos/cosmos-sdk/types/query"
 	authtypes "github.com/cosmos/cosmos-sdk/x/auth/types"
 	authzkeeper "github.com/cosmos/cosmos-sdk/x/authz/keeper"
 	banktypes "github.com/cosmos/cosmos-sdk/x/bank/types"
@@ -64,6 +67,10 @@ func c16Gen(r *rand.Rand, tier string) []Case {
 		c = append(c, fmt.Sprintf("fork # k=%d m=withdrawDelegatorRewards val=0", k), fmt.Sprintf("fork # k=%d m=delegate val=0 amt=bal+1", k))
 		out = append(out, c)
 	}
+	// fixed case: queries about a validator that has left the bonded set but still holds its tokens
+	out = append(out, Case{"freset", "fork # k=1 m=delegate val=1 amt=3000000000000000000", "fork # k=2 m=delegate val=0 amt=1000000000000000000", "query # k=1 val=1",
+		"jail # val=1", "query # k=1 val=1", "query # k=2 val=0", "fork # k=1 m=undelegate val=1 amt=staked/2", "adv # dt=30000", "query # k=1 val=1",
+		"fork # k=1 m=redelegate val=1 dst=0 amt=staked/2", "query # k=1 val=1"})
 	for i := 0; i < n; i++ {
 		c := Case{"freset"}
 		for k := 1; k <= 3; k++ {
@@ -82,6 +89,9 @@ func c16Gen(r *rand.Rand, tier string) []Case {
 			case x >= 13:
 				if r.Intn(4) == 0 {
 					c = append(c, "toggle") // conversion of the registered coin switched off / on: the pair stays registered
+				}
+				if r.Intn(6) == 0 {
+					c = append(c, fmt.Sprintf("jail # val=%d", 1+r.Intn(2)))
 				}
 				c = append(c, fmt.Sprintf("query # k=%d val=%s", k, val))
 			case x < 4:
@@ -170,6 +180,20 @@ func c16Exec(c Case) (outs []string, fails []Failure, tags []string) {
 				}
 				app.StakingKeeper.BlockValidatorUpdates(env.ctx)
 				out = "ok"
+			case "jail":
+				// a validator leaves the bonded set (jailed, then the end-of-block validator update): it still holds its tokens
+				out = "skip"
+				va, err := sdk.ValAddressFromBech32(valAddr(kv["val"]))
+				if err != nil {
+					return
+				}
+				if v, ok := app.StakingKeeper.GetValidator(env.ctx, va); ok && !v.Jailed {
+					if ca, err := v.GetConsAddr(); err == nil {
+						app.StakingKeeper.Jail(env.ctx, ca)
+						app.StakingKeeper.BlockValidatorUpdates(env.ctx)
+						tags = append(tags, "validator-left-bonded-set")
+					}
+				}
 			case "toggle":
 				if _, err := app.Erc20Keeper.ToggleConversion(env.ctx, "atest"); err != nil {
 					out = "err"
@@ -390,6 +414,37 @@ func c16StoreDiff(a, b sdk.Context, owner common.Address) []string {
 }
 
 // c16Queries compares read-only precompile methods with the modules' own answers on one state.
+// c16ValidatorDiff compares one ValidatorInfo the precompile returned (an ABI struct, read by field name) with the
+// module's validator, field by field.
+func c16ValidatorDiff(got reflect.Value, v stakingtypes.Validator) string {
+	if !got.IsValid() || got.Kind() != reflect.Struct {
+		return "not reported"
+	}
+	big := func(name string) string {
+		if f := got.FieldByName(name); f.IsValid() && f.CanInterface() {
+			return fmt.Sprint(f.Interface())
+		}
+		return "?"
+	}
+	var diffs []string
+	for _, c := range [][3]string{
+		{"operatorAddress", big("OperatorAddress"), v.OperatorAddress},
+		{"tokens", big("Tokens"), v.Tokens.String()},
+		{"delegatorShares", big("DelegatorShares"), v.DelegatorShares.BigInt().String()},
+		{"jailed", big("Jailed"), fmt.Sprint(v.Jailed)},
+		{"status", big("Status"), fmt.Sprint(int32(v.Status))},
+		{"unbondingHeight", big("UnbondingHeight"), fmt.Sprint(v.UnbondingHeight)},
+		{"unbondingTime", big("UnbondingTime"), fmt.Sprint(v.UnbondingTime.UTC().Unix())},
+		{"commission", big("Commission"), v.Commission.Rate.BigInt().String()},
+		{"minSelfDelegation", big("MinSelfDelegation"), v.MinSelfDelegation.String()},
+	} {
+		if c[1] != c[2] {
+			diffs = append(diffs, fmt.Sprintf("%s %s, module %s", c[0], c[1], c[2]))
+		}
+	}
+	return strings.Join(diffs, "; ")
+}
+
 func c16Queries(ctx sdk.Context, who common.Address, val string) []string {
 	nw, _ := fixture()
 	app := nw.App
@@ -441,15 +496,52 @@ func c16Queries(ctx sdk.Context, who common.Address, val string) []string {
 	if in, err := sabi.Pack("validator", common.BytesToAddress(vaddr.Bytes())); err == nil {
 		if ret, ok := call(stk, in); ok {
 			if outv, err := sabi.Unpack("validator", ret); err == nil && len(outv) == 1 {
-				s := fmt.Sprint(outv[0])
 				if v, found := app.StakingKeeper.GetValidator(ctx, vaddr); found {
-					for _, w := range []string{v.OperatorAddress, v.Tokens.String(), v.DelegatorShares.BigInt().String()} {
-						if !strings.Contains(s, w) {
-							d = append(d, fmt.Sprintf("staking.validator %s lacks %s", s, w))
-						}
+					if e := c16ValidatorDiff(reflect.ValueOf(outv[0]), v); e != "" {
+						d = append(d, fmt.Sprintf("staking.validator: validator %s (status %s): %s", v.OperatorAddress, v.Status, e))
 					}
 				}
 			}
+		}
+	}
+	// staking.validators (every status): each validator the module lists appears with its operator, tokens and shares
+	for _, status := range []string{"", "BOND_STATUS_BONDED", "BOND_STATUS_UNBONDING", "BOND_STATUS_UNBONDED"} {
+		in, err := sabi.Pack("validators", status, query.PageRequest{Limit: 100, CountTotal: true})
+		if err != nil {
+			d = append(d, "staking.validators: cannot pack: "+err.Error())
+			break
+		}
+		ret, ok := call(stk, in)
+		if !ok {
+			d = append(d, "staking.validators("+status+") call failed")
+			continue
+		}
+		outv, err := sabi.Unpack("validators", ret)
+		if err != nil || len(outv) < 1 {
+			d = append(d, "staking.validators: cannot unpack")
+			continue
+		}
+		if os.Getenv("VERIF_DEBUG") != "" {
+			fmt.Fprintln(os.Stderr, "C16 validators", status, fmt.Sprint(outv[0]))
+		}
+		got := map[string]reflect.Value{}
+		if rv := reflect.ValueOf(outv[0]); rv.Kind() == reflect.Slice {
+			for j := 0; j < rv.Len(); j++ {
+				got[rv.Index(j).FieldByName("OperatorAddress").String()] = rv.Index(j)
+			}
+		}
+		n := 0
+		for _, v := range app.StakingKeeper.GetAllValidators(ctx) {
+			if status != "" && v.Status.String() != status {
+				continue
+			}
+			n++
+			if e := c16ValidatorDiff(got[v.OperatorAddress], v); e != "" {
+				d = append(d, fmt.Sprintf("staking.validators(%s): validator %s (status %s): %s", status, v.OperatorAddress, v.Status, e))
+			}
+		}
+		if n != len(got) {
+			d = append(d, fmt.Sprintf("staking.validators(%s) lists %d validators, the module %d", status, len(got), n))
 		}
 	}
 	// staking.unbondingDelegation
